@@ -91,6 +91,11 @@ func (pe *PeriodicalExecutor) Sync(fn func()) {
 // Wait waits the execution to be done.
 func (pe *PeriodicalExecutor) Wait() {
 	pe.Flush()
+	// batches taken by Add but not yet picked up by the background flusher
+	// are not counted in waitGroup yet, wait until they are.
+	for atomic.LoadInt32(&pe.inflight) > 0 {
+		time.Sleep(time.Millisecond)
+	}
 	pe.wgBarrier.Guard(func() {
 		pe.waitGroup.Wait()
 	})
@@ -129,8 +134,8 @@ func (pe *PeriodicalExecutor) backgroundFlush() {
 			select {
 			case vals := <-pe.commander:
 				commanded = true
-				atomic.AddInt32(&pe.inflight, -1)
 				pe.enterExecution()
+				atomic.AddInt32(&pe.inflight, -1)
 				pe.confirmChan <- lang.Placeholder
 				pe.executeTasks(vals)
 				last = timex.Now()
